@@ -132,3 +132,189 @@ def has_var(x):
     if isinstance(x, list):
         return any(has_var(v) for v in x)
     return False
+
+
+# ----------------------------------------------------------------------------- C05: sheens inequality variables
+
+INEQ_OPS = ["<=", ">=", "!=", ">", "<"]          # the order in which sheens tests the prefixes
+INEQ_RESTS = ["n", "m"]
+# names that look like inequality variables but are not (or are degenerate): "?<" / "?>" are too short, "?<=" / "?!=" have the
+# anonymous variable "?" as their target, "?=n" has no operator, "??<n" is an optional variable, "?<=n" is <= (never < "=n"),
+# "?<==n" is <= with target "?=n"
+INEQ_ODD = ["?<", "?>", "?<=", "?!=", "?>=", "?=n", "??<n", "?<==n", "?<>n", "?!n"]
+
+
+def ineq_of(v):
+    """(operator, rest) if the variable name v is an inequality variable for sheens, else None (mirror of `ineqOf`)."""
+    if not isinstance(v, str) or len(v.encode()) <= 2 or not v.startswith("?"):
+        return None
+    for ie in INEQ_OPS:
+        if v[1:].startswith(ie):
+            return ie, v[1 + len(ie):]
+    return None
+
+
+def ineq_sat(ie, a, b):
+    return {"<": a < b, "<=": a <= b, ">": a > b, ">=": a >= b, "!=": a != b}[ie]
+
+
+def ordered_enc(p):
+    """Pattern with the order of its map pairs made explicit (what the model driver reads from the field "po")."""
+    if isinstance(p, dict):
+        return {"o": [[k, ordered_enc(v)] for k, v in p.items()]}
+    if isinstance(p, list):
+        return {"a": [ordered_enc(v) for v in p]}
+    return p
+
+
+def key_orders(p, cap=64):
+    """All patterns that differ from p only in the order of the pairs of its maps (at any depth); None if more than cap."""
+    import itertools
+    def go(x):
+        if isinstance(x, dict):
+            items = list(x.items())
+            subs = []
+            for k, v in items:
+                s = go(v)
+                if s is None:
+                    return None
+                subs.append(s)
+            out = []
+            for perm in itertools.permutations(range(len(items))):
+                for combo in itertools.product(*[subs[i] for i in perm]):
+                    out.append({items[i][0]: c for i, c in zip(perm, combo)})
+                    if len(out) > cap:
+                        return None
+            return out
+        if isinstance(x, list):
+            subs = []
+            for v in x:
+                s = go(v)
+                if s is None:
+                    return None
+                subs.append(s)
+            out = []
+            for combo in itertools.product(*subs):
+                out.append(list(combo))
+                if len(out) > cap:
+                    return None
+            return out
+        return [x]
+    return go(p)
+
+
+def ineq_case(rng):
+    """One (pattern, data, bindings) triple about inequality variables, plus the facts needed to classify it:
+    returns dict(p, d, bs, slot=(variable, fact value at its first occurrence)).
+
+    A map of the pattern with two or more variable-bearing pairs only occurs where the real matcher walks it exactly once
+    per call (at the top, or below maps only, in a pattern without array / property variables), so that the outcomes over
+    all key orders of the model are exactly the possible outcomes of the real code."""
+    def num_near(b):
+        return rng.choice([b - 1, b, b + 1, b - 100, b + 100, 0, -1, 1, 2, 3, 5, 10, -7])
+    def nonnum():
+        return rng.choice(["x", "", "10", True, False, None, {"k": 1}, [1, 2], []])
+    rest = rng.choice(INEQ_RESTS)
+    op = rng.choice(INEQ_OPS)
+    r = rng.random()
+    if r < 0.12:
+        iv = rng.choice(INEQ_ODD)
+    elif r < 0.16:
+        iv = "?" + op + rng.choice(["", "=", "é", "<n", "n m"])
+    else:
+        iv = "?" + op + rest
+    parsed = ineq_of(iv)
+    target = "?" + (parsed[1] if parsed else rest)
+    b = rng.choice([0, 1, 3, 5, 10, -7, -1, 42, 1000000])
+    # second inequality variable: same target (a range test), or another target
+    op2 = rng.choice(INEQ_OPS)
+    iv2 = "?" + op2 + (rest if rng.random() < 0.6 else rng.choice(INEQ_RESTS))
+    b2 = rng.choice([b, b + 2, b - 2, 0, 7])
+    def fact():
+        return num_near(b) if rng.random() < 0.85 else nonnum()
+    f1, f2 = fact(), fact()
+    if rng.random() < 0.35:
+        f2 = f1
+    extra = lambda: ({rng.choice(["d", "e"]): scalar(rng)} if rng.random() < 0.4 else {})
+    shape = rng.choice(["flat", "flat", "flat", "top", "nested", "arrvar", "arrvar", "arrmaps", "repeat", "repeat", "withtarget",
+                        "withtarget", "range", "range", "ordinary", "keyvar", "propval", "optional", "repeat_nested", "arrconst", "err"])
+    slot = (iv, f1)
+    if shape == "flat":
+        p = {"a": iv}; d = dict({"a": f1}, **extra())
+    elif shape == "top":
+        p = iv; d = f1
+    elif shape == "nested":
+        p = {"a": {"b": iv}, "c": rng.choice([1, "x"])}; d = dict({"a": dict({"b": f1}, **extra()), "c": rng.choice([1, "x"])}, **extra())
+    elif shape == "arrvar":
+        # the array variable is laid over every left-over element: several results
+        consts = rng.sample([1, 2, "x"], rng.randint(0, 1))
+        fs = distinct_scalars(rng, rng.randint(0, 3), "n") + [num_near(b) for _ in range(rng.randint(0, 3))] + consts
+        if rng.random() < 0.3: fs.append({"k": 1})
+        if rng.random() < 0.3: fs.append(rng.choice(["y", True, None]))
+        rng.shuffle(fs)
+        p = {"a": consts + [iv]}; rng.shuffle(p["a"]); d = {"a": fs}
+        nums = [x for x in fs if isinstance(x, (int, float)) and not isinstance(x, bool)]
+        slot = (iv, nums[0] if nums else "x")
+    elif shape == "arrmaps":
+        p = {"a": [dict({"k": iv}, **({"j": 1} if rng.random() < 0.3 else {}))]}
+        d = {"a": [{"k": fact(), "j": rng.choice([1, 2])} for _ in range(rng.randint(1, 3))] + ([7] if rng.random() < 0.3 else [])}
+        slot = (iv, d["a"][0]["k"])
+    elif shape == "repeat":
+        p = {"a": iv, "b": iv}; d = dict({"a": f1, "b": f2}, **extra())
+        if rng.random() < 0.3:
+            p["c"] = iv; d["c"] = fact()
+    elif shape == "repeat_nested":
+        p = {"a": {"b": iv, "c": iv}}; d = {"a": {"b": f1, "c": f2}}
+    elif shape == "withtarget":
+        p = {"a": iv, "b": target}; d = {"a": f1, "b": f2}
+        if rng.random() < 0.3:
+            p["c"] = "?x"; d["c"] = fact()
+    elif shape == "range":
+        p = {"a": iv, "b": iv2}; d = {"a": f1, "b": f2}
+    elif shape == "ordinary":
+        p = {"a": iv, "b": "?x", "c": rng.choice(["?x", "?y", "?"])}; d = {"a": f1, "b": f2, "c": rng.choice([f2, fact()])}
+    elif shape == "keyvar":
+        # an inequality variable in key position only ever sees strings: never used there
+        p = {iv: rng.choice([f1, "?x", iv])}; d = dict({"a": f1, "b": f2}, **extra())
+    elif shape == "propval":
+        p = {"?k": iv}; d = {"a": f1, "b": f2, "c": fact()}
+    elif shape == "optional":
+        p = {"a": iv, "z": "??o"}; d = {"a": f1}
+    elif shape == "arrconst":
+        p = {"a": [f1 if isinstance(f1, (int, float, str)) and not isinstance(f1, bool) else 1, iv]}
+        d = {"a": [f1, f2] if canon_scalar_distinct(f1, f2) else [f1]}
+        slot = (iv, f2 if len(d["a"]) > 1 else "x")
+    else:
+        # deterministic error classes stay what they are when inequality variables are involved
+        p = {"a": rng.choice([[iv, iv], [iv, iv2 if iv2 != iv else "?x"]])}; d = {"a": [f1, f2]}
+    # incoming bindings
+    bs = {}
+    def bind_iv(v, bound):
+        r = rng.random()
+        if r < 0.72:
+            bs[v] = bound
+        elif r < 0.84:
+            bs[v] = rng.choice(["x", "10", True, None, [1], {"k": 1}])
+        # else unbound: an ordinary variable
+    bind_iv(iv, b)
+    if shape == "range":
+        bind_iv(iv2, b2)
+    r = rng.random()
+    if r < 0.12 and isinstance(slot[1], (int, float)) and not isinstance(slot[1], bool):
+        bs[target] = slot[1]                      # pre-bound to the number it is going to see
+    elif r < 0.24:
+        bs[target] = num_near(b)                  # pre-bound to (most often) another number
+    elif r < 0.34:
+        bs[target] = rng.choice(["x", "", True, None, [1]])   # pre-bound to a non-number
+    if rng.random() < 0.15:
+        bs["?x"] = rng.choice([f2, 1, "x"]) if not isinstance(f2, (dict, list)) else 1
+    return {"p": p, "d": d, "bs": bs, "slot": slot, "shape": shape}
+
+
+def canon_scalar_distinct(a, b):
+    """a and b are scalars that the matcher's scalar set keeps apart (distinct Go map keys)."""
+    if isinstance(a, (dict, list)) or isinstance(b, (dict, list)):
+        return False
+    if isinstance(a, bool) or isinstance(b, bool):
+        return type(a) != type(b) or a != b
+    return a != b or type(a) != type(b) and not (isinstance(a, (int, float)) and isinstance(b, (int, float)))
